@@ -208,8 +208,13 @@ def _normalise(p):
     return (x.tolist(), dt, taus, ups, downs, stt), None
 
 
-def _accept(got2d, x, dt, taus, nodal, ups, downs, stt, trim, start, kind):
-    """Two-sided comparison of a (rows x length) result with the reference. kind: 'energy' | 'cum' | 'acc'."""
+EPS32 = float(np.finfo(np.float32).eps)
+F32_RTOL = 64 * EPS32      # a float32 record is given to eps32; numpy evaluates up_red*record in float32
+
+
+def _accept(got2d, x, dt, taus, nodal, ups, downs, stt, trim, start, kind, f32=False):
+    """Two-sided comparison of a (rows x length) result with the reference. kind: 'energy' | 'cum' | 'acc'.
+    f32: the record is a float32 array - tolerances are 64*eps32 of the same well-conditioned scales."""
     n = len(x)
     k = len(taus)
     if got2d.ndim != 2 or got2d.shape[0] != k:
@@ -241,13 +246,16 @@ def _accept(got2d, x, dt, taus, nodal, ups, downs, stt, trim, start, kind):
             ref = np.array(ref, dtype=float)
             mx = float(np.max(np.abs(ref))) if ref.size else 0.0
             if kind == 'acc':
-                args = dict(scale=(abs(ups[r]) + abs(downs[r])) * max(abs(v) for v in x), rtol=1e-9)
+                args = dict(scale=(abs(ups[r]) + abs(downs[r])) * max(abs(v) for v in x), rtol=F32_RTOL if f32 else 1e-9)
             else:
                 v2 = O.velocity_scale(x, dt, ups[r], downs[r]) ** 2
-                args = dict(scale=mx, rtol=1e-9, atol=1e-11 * v2) if kind == 'energy' else dict(scale=mx + v2, rtol=1e-9)
+                if f32:
+                    args = dict(scale=mx + v2, rtol=F32_RTOL)
+                else:
+                    args = dict(scale=mx, rtol=1e-9, atol=1e-11 * v2) if kind == 'energy' else dict(scale=mx + v2, rtol=1e-9)
             if tol.close(got2d[r], ref, **args):
                 res = (True, '')
-                if O.quotient_kind(taus[r], dt, 2)[0] == 'near':
+                if O.quotient_kind(taus[r], dt, 2, n)[0] == 'near':
                     CTX.observe('%s row with 2*tau/dt an inexact near-integer: accepted with first sample %s, last sample %s'
                                 % (kind, 'in' if edge[0] else 'out', 'in' if edge[1] else 'out'))
                 break
@@ -355,7 +363,10 @@ def _check_surface(fn, args, kwargs, result, snap=None):
     x, dt, taus, ups, downs, stt = norm
     got = _as2d(result, len(taus))
     kind = _FN_KIND[fn]
-    ok, msg = _accept(got, x, dt, taus, bool(p['nodal']), ups, downs, stt, bool(p['trim']), bool(p['start']), kind)
+    f32 = np.asarray(p['asig'].values).dtype == np.float32
+    ok, msg = _accept(got, x, dt, taus, bool(p['nodal']), ups, downs, stt, bool(p['trim']), bool(p['start']), kind, f32)
+    if f32:
+        ctx.observe('%s on a float32 record judged with 64*eps32' % fn)
     ctx.check(ok, _FN_CLAUSE[fn], lambda: _wit_surface(fn, p, got=np.asarray(result)),
               '%s(n=%d, dt=%r, tau=%s, nodal=%s, up=%s, down=%s, stt=%r, trim=%s, start=%s): %s'
               % (fn, len(x), dt, taus[:6], p['nodal'], ups[:6], downs[:6], stt, p['trim'], p['start'], msg))
@@ -419,7 +430,8 @@ def _post_cum(args, kwargs, result, pre):
             if taus[i] == 0 and ups[i] == downs[i] and i < got.shape[0]:
                 v2 = O.velocity_scale(x, dt, ups[i], downs[i]) ** 2
                 mx = float(np.max(np.abs(got[i]))) if got.shape[1] else 0.0
-                ctx.check(mx <= 1e-12 * v2, 'cum.zero@tau0-nodal', wit,
+                f32 = np.asarray(p['asig'].values).dtype == np.float32
+                ctx.check(mx <= (F32_RTOL if f32 else 1e-12) * v2, 'cum.zero@tau0-nodal', wit,
                           'tau=0 at a nodal surface with equal reductions: max cumulative energy %r, expected 0' % mx)
 
 
@@ -705,14 +717,16 @@ def _row_red(c, r):
     if u is None:
         return None, None
     if hasattr(u, '__len__'):
-        if isinstance(c['values'], np.ndarray) and c['values'].dtype == np.float32:
-            return np.float64(u[r]), np.float64(d[r])   # a python-float factor times a float32 record is a float32 product
         return float(u[r]), float(d[r])
     return u, d
 
 
 def _x64(c):
     return np.asarray(c['values'], dtype=float)
+
+
+def _is_f32(c):
+    return isinstance(c['values'], np.ndarray) and c['values'].dtype == np.float32
 
 
 def _rel_batch(eqsig, ctx, fn, c, batch=None):
@@ -742,7 +756,7 @@ def _rel_batch(eqsig, ctx, fn, c, batch=None):
             scale = float(np.max(np.abs(single))) + O.velocity_scale(x.tolist(), c['dt'], uu, dd) ** 2 if single.size else 0.0
         okk = batch.ndim == 2 and single.ndim == 1 and r < batch.shape[0] and len(single) <= batch.shape[1]
         if okk:
-            okk = tol.close(batch[r, :len(single)], single, scale=scale, rtol=1e-12)
+            okk = tol.close(batch[r, :len(single)], single, scale=scale, rtol=F32_RTOL if _is_f32(c) else 1e-12)
         ctx.check(okk, clause, lambda: _case_wit('rel.batch', c, base_fn=fn, row=r),
                   '%s: row %d of the batch (tau=%r of %s) differs from the single-travel-time call (shapes %s / %s)'
                   % (fn, r, taus[r], taus.tolist(), batch.shape, single.shape))
@@ -756,7 +770,16 @@ def _rel_alpha(eqsig, ctx, c, alpha, base=None):
     if base is None:
         return
     x = _x64(c)
-    scaled = _call(eqsig, ctx, fn, c, values=x * alpha)
+    f32 = _is_f32(c)
+    if f32:     # stay in the arithmetic the record is given in: a power of two scales float32 products exactly as well
+        with np.errstate(over='ignore'):
+            xs = c['values'] * np.float32(alpha)
+        if not np.all(np.isfinite(xs)):
+            return
+        x = xs.astype(float) / alpha
+    else:
+        xs = x * alpha
+    scaled = _call(eqsig, ctx, fn, c, values=xs)
     if scaled is None:
         return
     base, scaled = np.asarray(base), np.asarray(scaled)
@@ -771,7 +794,8 @@ def _rel_alpha(eqsig, ctx, c, alpha, base=None):
         um = 1.0 if u is None else float(np.max(np.abs(u)))
         dm = 1.0 if d is None else float(np.max(np.abs(d)))
         v2 = O.velocity_scale((x * alpha).tolist(), c['dt'], um, dm) ** 2
-        okk = tol.close(scaled, ref, scale=(float(np.max(np.abs(ref))) if ref.size else 0.0) + v2, rtol=1e-9)
+        okk = tol.close(scaled, ref, scale=(float(np.max(np.abs(ref))) if ref.size else 0.0) + v2,
+                        rtol=F32_RTOL if f32 else 1e-9)
         clause = 'cum.scales-alpha^2(tol)'
     ctx.check(okk, clause, lambda: _case_wit('rel.alpha', c, alpha=alpha),
               'cum(alpha*a) != alpha^2*cum(a) for alpha=%r: %s' % (alpha, tol.describe(scaled, ref, rtol=0.0)
@@ -1009,36 +1033,31 @@ def gen_surface_case(rng):
             stt = float(_pick(rng, floor_tab, int(1.5 * n) + 1))
     # -- record container -------------------------------------------------------------------------------------------
     vals, rk = record_container(rng, x)
-    f32rec = rk == 'float32'
     # -- reductions ---------------------------------------------------------------------------------------------------
     r = rng.random()
     same_obj = False
     if r < 0.22:
         up = down = None
     elif r < 0.52:
-        if f32rec:      # a python-float factor times a float32 record is a float32 product: keep it exact or force float64
-            up = float(rng.choice([1.0, 0.5, 0.25])) if rng.random() < 0.5 else np.float64(rng.uniform(0.05, 1.0))
-            down = up if (rng.random() < 0.3 or tk == 'zero-nodal') else type(up)(rng.choice([1.0, 0.5, 0.125]))
+        q = rng.random()
+        if q < 0.15:
+            up = down = 1                                   # python int
+        elif q < 0.3:
+            up = np.float32(rng.choice([0.5, 0.75, 0.3, 1.0]))
+            down = up if (rng.random() < 0.3 or tk == 'zero-nodal') else np.float32(rng.uniform(0.05, 1.0))
+        elif q < 0.45:
+            up = np.float64(rng.uniform(0.05, 1.0))
+            down = up if (rng.random() < 0.3 or tk == 'zero-nodal') else np.float64(rng.uniform(0.05, 1.0))
         else:
-            q = rng.random()
-            if q < 0.15:
-                up = down = 1                                   # python int
-            elif q < 0.3:
-                up = np.float32(rng.choice([0.5, 0.75, 0.3, 1.0]))
-                down = up if (rng.random() < 0.3 or tk == 'zero-nodal') else np.float32(rng.uniform(0.05, 1.0))
-            elif q < 0.45:
-                up = np.float64(rng.uniform(0.05, 1.0))
-                down = up if (rng.random() < 0.3 or tk == 'zero-nodal') else np.float64(rng.uniform(0.05, 1.0))
-            else:
-                up = float(rng.choice([1.0, 0.5, 1e-12, float(rng.uniform(0.05, 1.0))]))
-                down = up if (rng.random() < 0.3 or tk == 'zero-nodal') else float(rng.choice([1.0, 0.25, float(rng.uniform(0.05, 1.0))]))
+            up = float(rng.choice([1.0, 0.5, 1e-12, float(rng.uniform(0.05, 1.0))]))
+            down = up if (rng.random() < 0.3 or tk == 'zero-nodal') else float(rng.choice([1.0, 0.25, float(rng.uniform(0.05, 1.0))]))
     else:
         up = rng.uniform(0.05, 1.0, size=k)
         down = up.copy() if (rng.random() < 0.25 or tk == 'zero-nodal') else rng.uniform(0.05, 1.0, size=k)
         if rng.random() < 0.15:
             up[int(rng.integers(k))] = 1.0
         q = rng.random()
-        if not f32rec and q < 0.12:
+        if q < 0.12:
             up, down = up.astype(np.float32), down.astype(np.float32)
         elif q < 0.2:
             dtn = str(rng.choice(['int64', 'uint8', 'int8', 'int32']))
